@@ -143,9 +143,17 @@ func sameInts(a, b []int) bool {
 }
 
 func (r *run) checkC02(d *delivery, i int) {
-	if !r.on("C02") {
-		return
+	if r.on("C02") {
+		r.settlementCheck(d, i, "C02")
 	}
+	// C10: "that strength is the one the showdown compares" - the same
+	// reference settlement, fed with the strengths the engine reports
+	if r.on("C10") {
+		r.settlementCheck(d, i, "C10")
+	}
+}
+
+func (r *run) settlementCheck(d *delivery, i int, prop string) {
 	gs := d.post
 	if gs.Status.CurrentEvent != "GameClosed" || d.pre.Status.CurrentEvent == "GameClosed" || gs.Result == nil {
 		return
@@ -162,7 +170,7 @@ func (r *run) checkC02(d *delivery, i int) {
 	}
 	// strengths from the independent evaluator whenever there is a showdown
 	// on a full board (the engine's own Power is what C10 judges)
-	if len(gs.Status.Board) == 5 && alive(gs) >= 2 {
+	if prop == "C02" && len(gs.Status.Board) == 5 && alive(gs) >= 2 {
 		vals := make([]handVal, n)
 		lenient := false
 		ok := true
@@ -264,6 +272,18 @@ func (r *run) checkC02(d *delivery, i int) {
 	_ = multi
 	if len(pots) >= 3 {
 		r.probe("three-or-more-side-pots")
+	}
+	if prop == "C10" {
+		for k := 0; k < n; k++ {
+			if !got[k] || fold[k] {
+				continue
+			}
+			net := changed[k] + c[k]
+			if (net < lo[k] || net > hi[k]) && (net < lo2[k] || net > hi2[k]) {
+				r.viol("C10", "showdown-did-not-compare-the-reported-strengths", fmt.Sprintf("seat %d received %d; with the reported strengths %v (folded %v, contributions %v) it is owed %d..%d", k, net, power, fold, c, lo[k], hi[k]), i)
+			}
+		}
+		return
 	}
 	for k := 0; k < n; k++ {
 		if !got[k] {
